@@ -347,6 +347,7 @@ class Run:
             elif kind == 'abort_task':
                 # fault: whoever drives the process gives up (e.g. asyncio.wait_for timed out) -> the stepping task is cancelled
                 ret = self.task.cancel() if self.task is not None else None
+                self.aborted_tasks = getattr(self, 'aborted_tasks', []) + [self.task]
             elif kind == 'restart_task':
                 self.task = self.drv.loop.create_task(proc.step_until_terminated())
                 ret = None
@@ -630,7 +631,7 @@ class Run:
         """What the scenario still owes the process at a quiescent point (None = nothing)."""
         proc = self.proc
         if self.task is not None and self.task.done() and not proc.has_terminated():
-            if any(a['kind'] == 'abort_task' for a in self.acts):
+            if any(t is self.task for t in getattr(self, 'aborted_tasks', ())):
                 return ['restart_task']  # the stepping task was aborted: somebody steps the process again
             # the stepping task ended on its own although the process is live (it died): nobody owes the process a new one
             self.task_died = self._task_info(self.task)
